@@ -41,6 +41,9 @@ type Config struct {
 	ComplaintNs   int64            `json:"complaint_ns"`
 	Funding       map[string]int64 `json:"funding"`
 	ModSvc        *ModSvcCfg       `json:"mod_svc,omitempty"`
+	// Reactive: the emulated consumer module reacts to the "cannot pay" notification by killing its
+	// (repeated) context from inside the state callback, as a real host module may do
+	Reactive bool `json:"reactive_module,omitempty"`
 }
 
 type ModOutcome struct {
@@ -222,6 +225,11 @@ func (w *World) respCallback(ctx sdk.Context, id tmbytes.HexBytes, outs []string
 
 func (w *World) stateCallback(ctx sdk.Context, id tmbytes.HexBytes, cause string) {
 	w.cbs = append(w.cbs, CallbackRec{Kind: "state", Ctx: hx(id), Cause: cause})
+	if w.cfg.Reactive {
+		if rc, found := w.k.GetRequestContext(ctx, id); found && rc.Repeated {
+			_ = w.k.KillRequestContext(ctx, id, rc.Consumer)
+		}
+	}
 }
 
 func (w *World) modService(ctx sdk.Context, input string) (string, string) {
